@@ -153,6 +153,10 @@ class CallMixin:
                 for s2, v in self.ev(node.body, s1.with_loc(loc)):
                     yield s2.with_loc(caller), v
             return
+        if self.mode == "bv" and qual is None and getattr(node, "name", None) in self.opaque_spec \
+                and f.module in self.spec_module_names:
+            yield st, self.opaque_spec_call(st, node.name, args)
+            return
         if qual is not None and qual in self.contracts and qual not in self.no_contract_for:
             yield from self.call_by_contract(st, f, qual, args, kwargs)
             return
@@ -182,6 +186,21 @@ class CallMixin:
 
     def call_by_contract(self, st, f, qual, args, kwargs):
         raise Unsupported("contracts at call sites not configured")
+
+    def opaque_spec_call(self, st, name, args):
+        """codec mode: a spec function declared OPAQUE_IN_CODEC is an uninterpreted function of its (flattened)
+        arguments - its definition is only used by the arithmetic-mode proofs"""
+        flat = []
+        for a in args:
+            if isinstance(a, Opt):
+                flat.append(a.isnone)
+                a = a.val
+            if not is_term(a):
+                raise Unsupported(f"opaque spec function {name}: non-scalar argument")
+            flat.append(a)
+        fn = self.get_uf("spec." + name, [x.sort() for x in flat], self.T.val(0).sort())
+        self.used_assumptions.add(f"spec function {name} is uninterpreted in codec mode (defined and used in arithmetic-mode obligations)")
+        return fn(*flat)
 
     # ------------------------------------------------------------------ constructors
     def construct(self, st, ci, args, kwargs):
